@@ -1,7 +1,7 @@
 """Seeded generator of grid scripts (C13): deck text in three input forms and operation sequences."""
 
 
-def deck_text(form, dims, dx, dy, dz, tops, shift, actnum, units, mapaxes):
+def deck_text(form, dims, dx, dy, dz, tops, shift, actnum, units, mapaxes, wp=None):
     nx, ny, nz = dims
     s = "RUNSPEC\nDIMENS\n %d %d %d /\n%s\nGRID\n" % (nx, ny, nz, units)
     if mapaxes:
@@ -17,10 +17,12 @@ def deck_text(form, dims, dx, dy, dz, tops, shift, actnum, units, mapaxes):
         s += "TOPS\n %s /\n" % " ".join(str(tops + shift[i + nx * j]) for j in range(ny) for i in range(nx))
     else:
         # corner point: vertical pillars on the cell corners, ZCORN per cell with the column's fault shift
+        # wp: thickness weights of the pillar rows in halves (2 = plain); a weight 0 pinches every layer out on that row
+        wp = wp or [2] * (nx + 1)
         xs = [sum(dx[:i]) for i in range(nx + 1)]
         ys = [sum(dy[:j]) for j in range(ny + 1)]
         zs = [tops + sum(dz[:k]) for k in range(nz + 1)]
-        zmin, zmax = zs[0] + min(shift) , zs[-1] + max(shift)
+        zmin, zmax = zs[0] + min(shift), tops + sum(dz) * max(wp) / 2.0 + max(shift)
         coord = []
         for j in range(ny + 1):
             for i in range(nx + 1):
@@ -31,8 +33,9 @@ def deck_text(form, dims, dx, dy, dz, tops, shift, actnum, units, mapaxes):
                 for j in range(ny):
                     for jj in (0, 1):
                         for i in range(nx):
-                            z = zs[k + face] + shift[i + nx * j]
-                            zcorn += [z, z]
+                            for side in (0, 1):         # the west and the east pillar row of the cell
+                                z = tops + sum(dz[:k + face]) * wp[i + side] / 2.0 + shift[i + nx * j]
+                                zcorn.append(z)
         s += "COORD\n %s /\nZCORN\n %s /\n" % (" ".join(map(str, coord)), " ".join(map(str, zcorn)))
     s += "ACTNUM\n %s /\n" % " ".join(map(str, actnum))
     return s
@@ -69,9 +72,19 @@ def rand_script(rng, nops):
     units = rng.choice(["METRIC", "FIELD"])
     actnum = rand_mask(rng, nc)
     mapaxes = [0, 100, 0, 0, 100, 0] if rng.random() < 0.5 else None
-    ops = [{"op": "create", "deck": deck_text(form, dims, dx, dy, dz, tops, shift, actnum, units, mapaxes),
+    # corner-point wedges: the layers thin out (weight 0: pinch out) towards one or both ends of the pillar rows
+    wp = [2] * (nx + 1)
+    if form == "corner" and rng.random() < 0.5:
+        wp = [rng.choice([2, 2, 4, 6]) for _ in range(nx + 1)]
+        if rng.random() < 0.6:
+            wp[0] = 0
+        elif rng.random() < 0.5:
+            wp[nx] = 0
+        if nx == 1 and wp == [0, 0]:
+            wp[1] = 2
+    ops = [{"op": "create", "deck": deck_text(form, dims, dx, dy, dz, tops, shift, actnum, units, mapaxes, wp),
             "dims": dims, "dx": dx, "dy": dy, "dz": dz, "tops": tops, "shift": shift, "actnum": actnum,
-            "form": form, "units": units}]
+            "form": form, "units": units, "wp": wp}]
     cur = list(actnum)
     for _ in range(nops):
         k = rng.random()
